@@ -52,3 +52,12 @@ Theorem C18_no_alias_needs_copy :
   exists l p, run (fun o n _ => n =? o) false pipe_init l = Some p /\ returned p <> script_written l.
 Proof. exact no_alias_needs_copy. Qed.
 Print Assumptions C18_no_alias_needs_copy.
+
+(** [io.Copy] into the writer goes through [Write], and out of the reader through [Read], which is what
+    the theorems above are about: the writer has no [ReadFrom] and the reader no [WriteTo] (their
+    exported method sets, regenerated from stream/io_chan.go) *)
+From Coq Require Import String List.
+Theorem C18_copy_goes_through_write_and_read :
+  chan_writer_methods = ["Close"; "Write"]%string /\ chan_reader_methods = ["Read"; "SetInterrupt"]%string.
+Proof. split; reflexivity. Qed.
+Print Assumptions C18_copy_goes_through_write_and_read.
